@@ -5,6 +5,7 @@ in a fasta format alignment and a reference sequence.
 package snps
 
 import (
+	"github.com/virus-evolution/gofasta/pkg/verifhook"
 	"errors"
 	"io"
 	"runtime"
@@ -47,6 +48,7 @@ func getSNPs(refSeq []byte, cFR chan fastaio.EncodedFastaRecord, cSNPs chan snpL
 			}
 		}
 		SL.snps = SNPs
+		verifhook.Jitter("snps.getSNPs", SL.idx)
 		cSNPs <- SL
 	}
 
